@@ -47,6 +47,8 @@ class GenVal(object):
 
 
 class RangeVal(object):
+    step = 1
+
     def __init__(self, lo, hi):
         self.lo, self.hi = lo, hi
 
@@ -185,7 +187,7 @@ class Lib(object):
         elif isinstance(it, Ref) and p.obj(it).cls == "list" and "items" in p.obj(it).f:
             items = list(p.obj(it).f["items"])
         elif isinstance(it, RangeVal) and isinstance(it.lo, int) and isinstance(it.hi, int):
-            items = list(range(it.lo, it.hi))
+            items = list(range(it.lo, it.hi, it.step))
         if items is not None and (spec is None or len(items) <= 1):
             if len(items) > 64:
                 raise Unsupported("unrolling %d iterations at %s" % (len(items), key))
@@ -215,7 +217,11 @@ class Lib(object):
         # symbolic iteration: a hidden index over a sequence view
         if isinstance(it, RangeVal):
             lo, hi = to_z3(it.lo), to_z3(it.hi)
-            view = SeqView(z3.If(hi > lo, hi - lo, 0), lambda i: lo + i)
+            st_ = it.step
+            if st_ == 1:
+                view = SeqView(z3.If(hi > lo, hi - lo, 0), lambda i: lo + i)
+            else:
+                view = SeqView(z3.If(hi > lo, (hi - lo + (st_ - 1)) / st_, 0), lambda i: lo + st_ * i)
         else:
             p, view = self.seq_of(ex, it, p, fctx, ln)
         idx = "__i%d" % st.lineno
@@ -491,7 +497,11 @@ class Lib(object):
                 return [(p, RangeVal(0, args[0]))]
             if len(args) == 2:
                 return [(p, RangeVal(args[0], args[1]))]
-            raise Unsupported("range with step line %s" % ln)
+            if len(args) == 3 and isinstance(args[2], int) and args[2] > 0:
+                r = RangeVal(args[0], args[1])
+                r.step = args[2]
+                return [(p, r)]
+            raise Unsupported("range with a symbolic or non-positive step line %s" % ln)
         if name == "list":
             if not args:
                 p = p.fork()
